@@ -112,7 +112,7 @@ Definition is_protocol_error (e : exn) : bool :=
 
 (** ** Observation interface for the correspondence stage *)
 
-Inductive c06_path := PCheck | PProxy | PMulti (pre post : list val) | PIter (pre post : list val).
+Inductive c06_path := PCheck | PProxy | PNotify | PMulti (pre post : list val) | PIter (pre post : list val).
 
 Definition exn_eqb (a b : exn) : bool :=
   match a, b with
@@ -136,6 +136,7 @@ Definition c06_run (p : c06_path) (r : val) : list (res val) :=
   match p with
   | PCheck => [check_for_errors r]
   | PProxy => [proxy_result r]
+  | PNotify => [do _ <- check_for_errors r; Ok VNone]      (* ServerProxy._request_notify: the reply is checked, None returned *)
   | PMulti pre post => [multicall_get (pre ++ r :: post) (length pre)]
   | PIter pre post => multicall_iter (pre ++ r :: post)
   end.
